@@ -445,10 +445,11 @@ def replay(lead, inputs, obs):
 
 
 def harnesses(tier, seed):
+    from specs import C06_bounds
     hs = _harnesses(tier, seed)
     for h in hs:
         h.replay = replay
-    return hs
+    return hs + C06_bounds.harnesses()
 
 
 def h_div():
